@@ -417,7 +417,10 @@ class Fn:
             return variant(base, [], "stub")
         out.append(variant(base, [], "main"))
         for f in self.findings:
-            out.append(variant("%s__F_%s" % (base, f.label), [f], "finding"))
+            vn = "%s__F_%s" % (base, re.sub(r"[^A-Za-z0-9_]", "_", f.label))
+            out.append(variant(vn, [f], "finding"))
+            fidv = "%s%s" % ((self.container_short() + "::") if self.container else "", vn)
+            unit.fns[fidv]["finding_label"] = f.label
         if not self.no_canary:
             out.append(variant("%s__canary" % base, [Clause("canary", "false")], "canary"))
         return "".join(out)
